@@ -111,6 +111,20 @@ CLAIMED['C20'] = {
             'from the multithreaded engine compared within 1e-9 relative.',
 }
 
+CLAIMED['C09'] = {
+    'technique': 'Rocq proof over a hand-written model (tie B) + correspondence streams',
+    'text': ('Theorems in Rocq for every identifier column and table: the contiguity test of Database.panel accepts exactly the columns where each identifier\'s '
+             'occurrences are contiguous; build_panel_map\'s blocks are non-empty ranges that tile [0,n); every row lies in exactly one block; a block holds exactly '
+             'the rows of its individual; sample size = rows of the draws table = number of individuals. Over the reals, for every admissible outcome of the sort: '
+             'the trajectory value is the product over exactly the individual\'s rows; Monte-Carlo inside is the average over the draws of that individual with one '
+             'draw shared by all rows of the block; per-individual values and the total are invariant under any reordering of the table and follow an injective '
+             'renaming of individuals. Tied by streams panel_map (refusal, map, row permutation, sample size compared exactly inside Coq, including remove '
+             'histories) and panel_ll (simulate, calculate_likelihood, get_value_c per-individual values vs the model over Q at relative 1e-12 with a '
+             'deterministic tagged draw generator, permuted individuals and rows, 1-4 threads).'),
+    'note': KERNEL + 'pandas primitives as modelled (sort_values = some sorted permutation, unique = first appearance); the C++ engine loop and draw indexing are '
+            'sampled, not verified; the rule "variables inside PanelLikelihoodTrajectory" is C12\'s.',
+}
+
 _NOT_YET = 'check not built yet in this session (framework under construction); no claim made'
 NOT_APPLICABLE = {p: _NOT_YET for p in
                   ['C01', 'C02', 'C03', 'C04', 'C05', 'C06', 'C07', 'C08', 'C09', 'C10', 'C11', 'C12', 'C13',
